@@ -279,13 +279,15 @@ def sequence_history(item):
 
 
 def reservoir_neighbours(item):
-    """Worker: for one input, the inputs that differ from it in ONE reservoir-module figure the input states itself (x 0.9; counts + 1)."""
+    """Worker: for one input, the inputs that differ from it in ONE figure the input states itself (reservoir, wellbore, surface plant or
+    economics parameter: x 0.9; counts + 1)."""
     from .c07 import build
     ident, text = item
     try:
         m = build(text, read=False)
-        names = {p.Name.strip() for p in m.reserv.ParameterDict.values() if type(p).__name__ in ('floatParameter', 'intParameter')}
-        ints = {p.Name.strip() for p in m.reserv.ParameterDict.values() if type(p).__name__ == 'intParameter'}
+        mods = [m.reserv, m.wellbores, m.surfaceplant, m.economics]
+        names = {p.Name.strip() for md in mods for p in md.ParameterDict.values() if type(p).__name__ in ('floatParameter', 'intParameter')}
+        ints = {p.Name.strip() for md in mods for p in md.ParameterDict.values() if type(p).__name__ == 'intParameter'}
     except BaseException:  # noqa: BLE001
         return []
     out, seen = [], set()
@@ -518,7 +520,7 @@ def run(tier: str, only_key: dict | None = None) -> int:
     texts['lean|v1'] = lean
     texts['lean3seg|v1'] = lean + 'Number of Segments, 3\nGradient 2, 40\nThickness 1, 1.2\n'
     for n in ('example_multiple_gradients', 'example2', 'example10_HP', 'example12_DH', 'S-DAC-GT', 'example_overpressure', 'example1', 'example3',
-              'Fervo_Project_Cape-3', 'example5'):
+              'Fervo_Project_Cape-3', 'example5', 'example_PTC', 'example_ITC'):
         if n in ex:
             texts[f'{n}|v1'] = ex[n]
     idents = list(texts)
@@ -533,9 +535,11 @@ def run(tier: str, only_key: dict | None = None) -> int:
             rng.shuffle(models)
             order = models[:4] + [models[0]]
         seqs.append((f'seq{k}', [(i, texts[i]) for i in order]))
-    # near-identical inputs: B differs from A in one reservoir figure; B after A in one process against B alone in a fresh one
+    # near-identical inputs: B differs from A in one figure A states (any module; bases with price schedules, tax credits and incentives
+    # among them); B after A in one process against B alone in a fresh one
     # (whatever a run keeps for later runs must be keyed by everything the kept value depends on)
-    nb_bases = [i for i in ('example1|v1', 'example2|v1', 'example3|v1', 'grid-eu2-pt9|v1', 'example_multiple_gradients|v1') if i in texts]
+    nb_bases = [i for i in ('example1|v1', 'example2|v1', 'example3|v1', 'grid-eu2-pt9|v1', 'example_multiple_gradients|v1', 'example_PTC|v1',
+                            'example_ITC|v1') if i in texts]
     for ident, lst in zip(nb_bases, sim.call_in_pool('harness.c08:reservoir_neighbours', [(i, texts[i]) for i in nb_bases])):
         rng.shuffle(lst)
         for nid, ntext in lst[: (6 if tier == 'quick' else len(lst))]:
